@@ -203,6 +203,8 @@ pub fn generate(tier: &str, rng: &mut Prng) -> Vec<Case> {
             special.extend(crate::c14::with_word(n, word, if thorough { 6 } else { 2 }));
         }
         special.extend(crate::c14::extremes().into_iter().take(if thorough { 20 } else { 3 }));
+        // a hashed point whose last coefficient is zero (as a polynomial it has a smaller degree)
+        special.extend(crate::c14::with_zero_at(n, n - 1, 1));
         for (salt, msg) in special {
             if let Some((m, s, p)) = exact_norm_triple_for(rng, n, bound(n) - 12345, 0, salt, msg) {
                 push(&mut ops, n, &m, &s, &p);
